@@ -34,15 +34,16 @@ theorem C14_collect_ok_iff :
 
 /-- **C14 (every file reported).** For all files and ALL behaviours of `clean` (it may raise anything)
 and of `parse` (raising only the classes the code catches), `collect` returns a database with exactly
-one record per file, in order; the record of a file whose `parse` fails with `E` holds the single label
+one record per file, in order; the record of a file whose `parse` — or, for a valid non-empty program,
+whose flattening (fix d1e6a10) — fails with `E` holds the single label
 `ast_construction:E` on lines `1..(number of newlines + 1)` and, as taxa, the taxonomy's answer on that
 single label; an empty file likewise with `EmptyProgramError` (same lines, fix 57ac228). -/
-theorem C14_every_file_reported (hp : ParseCaught X) (hf : FeaturesTotal X)
+theorem C14_every_file_reported (hp : ParseCaught X) (hfl : FlattenCaught X) (hf : FeaturesTotal X)
     (hn : (files.map (·.1)).Nodup) :
     ∃ db, collect X toTaxa files = .ok db ∧ Reported X toTaxa files db := by
   obtain ⟨db, hm⟩ := C11.C11_total (toTaxa := toTaxa) (progs := progsOf X files)
   have hpo : ParseOk X (files.map fun f => (f.1, srcOf X f)) :=
-    fun f _ => parseProgram_total hp hf f.2
+    fun f _ => parseProgram_total hp hfl hf f.2
   refine ⟨db, collect_of hpo hm, ?_⟩
   have hpaths : pathsOf (progsOf X files) = files.map (·.1) := by
     simp [pathsOf, progsOf, progOf, List.map_map, Function.comp_def]
@@ -53,7 +54,7 @@ theorem C14_every_file_reported (hp : ParseCaught X) (hf : FeaturesTotal X)
     simp [keys, progsOf, progOf, List.map_map, Function.comp_def]
   · intro f hfm
     have hmem : progOf X f ∈ progsOf X files := List.mem_map.mpr ⟨f, hfm, rfl⟩
-    refine ⟨recordOf toTaxa (internalOf (progsOf X files)) (progOf X f), ?_, rfl, ?_, ?_⟩
+    refine ⟨recordOf toTaxa (internalOf (progsOf X files)) (progOf X f), ?_, rfl, ?_, ?_, ?_⟩
     · rw [hprog]
       apply get?_of_mem_nodup
       · simpa [keys, pathsOf, List.map_map, Function.comp_def] using hn'
@@ -63,6 +64,15 @@ theorem C14_every_file_reported (hp : ParseCaught X) (hf : FeaturesTotal X)
       have hl : labelsOf (internalOf (progsOf X files)) (progOf X f) =
           [astLabel e.name (srcOf X f)] := by
         simp only [labelsOf, progOf, labelsD, parseProgram_invalid he hcaught, relabel,
+          List.map_cons, List.map_nil]
+        simp only [astLabel, relabelName_ast _ hcolon]
+      simp only [recordOf, hl, preparedLabels_single, astLabel, preparedSpans_single, Span3.poor]
+      constructor <;> first | rfl | trivial
+    · intro t e ht hne hfe
+      obtain ⟨hcaught, hcolon⟩ := hfl _ t e hfe
+      have hl : labelsOf (internalOf (progsOf X files)) (progOf X f) =
+          [astLabel e.name (srcOf X f)] := by
+        simp only [labelsOf, progOf, labelsD, parseProgram_unflattenable ht hne hfe hcaught, relabel,
           List.map_cons, List.map_nil]
         simp only [astLabel, relabelName_ast _ hcolon]
       simp only [recordOf, hl, preparedLabels_single, astLabel, preparedSpans_single, Span3.poor]
@@ -89,13 +99,14 @@ def tokenError : Exc := { name := [84, 111, 107, 101, 110, 69, 114, 114, 111, 11
 /-- The witness of the repaired finding F06: one file, a tokenizer that raises `TokenError`. -/
 def badExt : Ext Unit :=
   { clean := fun _ => .error tokenError, prepare := id, parse := fun _ => .ok (),
-    isEmpty := fun _ => true, features := fun _ _ => .ok [] }
+    isEmpty := fun _ => true, flatten := fun _ _ => .ok (), features := fun _ _ => .ok [] }
 
 /-- Non-vacuity: the externals of the former counterexample (every cleaning raises `TokenError`)
 satisfy all the hypotheses, so the file is reported. -/
 example : ∃ db, collect badExt (fun _ _ => []) [(exPath, [])] = .ok db ∧
     Reported badExt (fun _ _ => []) [(exPath, [])] db :=
-  C14_every_file_reported (fun src e he => by simp [badExt] at he) (fun src t => ⟨[], rfl⟩) (by decide)
+  C14_every_file_reported (fun src e he => by simp [badExt] at he)
+    (fun src t e he => by simp [badExt] at he) (fun src t => ⟨[], rfl⟩) (by decide)
 
 /-- **C14 (others unaffected).** Removing a file `b` from the directory does not change the record of
 any other file `g`, provided no label of `g` names `b`'s module (the relabelling of internal imports
@@ -184,9 +195,10 @@ example : ∃ db db', collect badExt (fun _ _ => []) [(exPath, []), ([98, 46, 11
     get? db'.programs exPath = get? db.programs exPath := by
   have hp : ParseCaught badExt := fun src e he => by simp [badExt] at he
   have hf : FeaturesTotal badExt := fun src t => ⟨[], rfl⟩
-  obtain ⟨db, h, -⟩ := C14_every_file_reported (toTaxa := fun _ _ => []) hp hf
+  have hfl : FlattenCaught badExt := fun src t e he => by simp [badExt] at he
+  obtain ⟨db, h, -⟩ := C14_every_file_reported (toTaxa := fun _ _ => []) hp hfl hf
     (files := [(exPath, []), ([98, 46, 112, 121], [])]) (by decide)
-  obtain ⟨db', h', -⟩ := C14_every_file_reported (toTaxa := fun _ _ => []) hp hf
+  obtain ⟨db', h', -⟩ := C14_every_file_reported (toTaxa := fun _ _ => []) hp hfl hf
     (files := [(exPath, []), ([98, 46, 112, 121], [])].filter fun f => decide (f.1 ≠ [98, 46, 112, 121]))
     (by decide)
   refine ⟨db, db', h, h', ?_⟩
@@ -222,7 +234,7 @@ theorem C14_closure_terminates (d : List (Name × List Name)) :
 code catches (and the feature search does not raise), it returns; invalid text gives the single label
 `ast_construction:<E>`, an empty module `ast_construction:EmptyProgramError`, and the taxa are the
 taxonomy's answer on that single label. -/
-theorem C14_tag_reports (hp : ParseCaught X) (hf : FeaturesTotal X) (src : Name) :
+theorem C14_tag_reports (hp : ParseCaught X) (hfl : FlattenCaught X) (hf : FeaturesTotal X) (src : Name) :
     (∃ r, tagMain X toTaxa src = .ok r) ∧
     (∀ e, X.parse (X.prepare src) = .error e →
       tagMain X toTaxa src = .ok ([astLabel e.name (X.prepare src)],
@@ -231,7 +243,7 @@ theorem C14_tag_reports (hp : ParseCaught X) (hf : FeaturesTotal X) (src : Name)
       tagMain X toTaxa src = .ok ([emptyLabel (X.prepare src)],
         toTaxa [] [emptyLabel (X.prepare src)])) := by
   refine ⟨?_, ?_, ?_⟩
-  · obtain ⟨ls, hls⟩ := parseProgram_total hp hf (X.prepare src)
+  · obtain ⟨ls, hls⟩ := parseProgram_total hp hfl hf (X.prepare src)
     exact ⟨_, by unfold tagMain; rw [hls]⟩
   · intro e he
     unfold tagMain
@@ -245,7 +257,7 @@ satisfy the hypotheses, and `tag` then reports the single label `ast_constructio
 def syntaxErrorExt : Ext Unit :=
   { clean := fun s => .ok s, prepare := id,
     parse := fun _ => .error { name := [83, 121, 110, 116, 97, 120, 69, 114, 114, 111, 114], caught := true },
-    isEmpty := fun _ => false, features := fun _ _ => .ok [] }
+    isEmpty := fun _ => false, flatten := fun _ _ => .ok (), features := fun _ _ => .ok [] }
 
 example : tagMain syntaxErrorExt (fun _ ls => [{ name := [109], spans := (ls.flatMap (·.spans)) }]) [120, 10] =
     .ok ([astLabel [83, 121, 110, 116, 97, 120, 69, 114, 114, 111, 114] [120, 10]],
@@ -255,6 +267,7 @@ example : tagMain syntaxErrorExt (fun _ ls => [{ name := [109], spans := (ls.fla
     (fun src e he => by
       simp only [syntaxErrorExt, Except.error.injEq] at he
       rw [← he]; exact ⟨rfl, by decide⟩)
+    (fun src t e he => by simp [syntaxErrorExt] at he)
     (fun src t => ⟨[], rfl⟩) [120, 10]).2.1 _ rfl
   rw [h]
   rfl
